@@ -387,6 +387,23 @@ def check_array_path(rep, f, label, rows, dom, P, is_class, base, tc=None, copy_
             viol.append(('AR.3', None, 'the copy constructor stores the source\'s pointer (shallow copy)'))
         if b in g.freed and b != 'null':
             viol.append(('AR.2', None, f'at return m_array still points to the freed block {b} with m_size {size}'))
+        if not ctor and b != 'data0' and 'data0' not in g.freed:
+            # the block *this owned on entry: kept, released (free / realloc), or handed to another array (swap / exchange with the parameter)
+            handed = False
+            for prm in f.d.get('params') or []:
+                if 'Array<' in (prm.get('ctype') or ''):
+                    oa = field(P, prm['name'], 'm_array', dom)
+                    if isinstance(oa, Ptr) and oa.base == 'data0': handed = True
+            # ... or to a temporary / local array (copy-and-swap: the temporary's destructor releases it)
+            for loc_, v_ in P.store.items():
+                if isinstance(v_, Ptr) and v_.base == 'data0' and not (loc_[0] == 'f' and loc_[1] == ('this', 'm_array')): handed = True
+            if not handed and not (isinstance(P.ret, Ptr) and P.ret.base == 'data0'):
+                try: ms = list(size_models(rows, dom, extra={'S'}))
+                except LookupError: ms = []
+                wit = next((m_ for m_ in ms if m_.get('S', 0) > 0), None)
+                if wit is not None:
+                    viol.append(('AR.2', None, f'm_array is given another block ({b}) while the block *this owned on entry is neither released nor handed to another array ({rs}; e.g. an array of {wit.get("S")} element(s)): '
+                                 'the storage leaks' + (' and the elements in it are never destroyed' if is_class else '')))
         if has_cap and b != 'null' and g.alloc.get(b) is not None:
             cap1 = field(P, 'this', 'm_capacity', dom)
             # only an over-estimate is harmful (an under-estimate costs a realloc): is there a state in which the cached capacity exceeds the block?
